@@ -65,7 +65,7 @@ def validate(number):
     """Check if the number is a valid CPF. This checks the length and whether
     the check digit is correct."""
     number = compact(number)
-    if not isdigits(number) or int(number) <= 0:
+    if not isdigits(number) or not number.strip('0'):
         raise InvalidFormat()
     if len(number) != 11:
         raise InvalidLength()
